@@ -54,11 +54,15 @@ def run(ctx):
         if key not in seen and h: seen.add(key); uniq.append(h)
     names = H.MDSHA + H.BLAKES
     traces = []
+    nall = len(uniq)
+    if big:                                        # depth-4 histories: all of depth <= 3, a seeded sample of the longest ones (pure-Python hashing cost)
+        long = [h for h in uniq if len(h) >= 4]; short = [h for h in uniq if len(h) < 4]
+        uniq = short + (rnd.sample(long, 5000) if len(long) > 5000 else long)
     for k, h in enumerate(uniq):
         useful = any(c['op'] in ('cont', 'final') for c in h)
         if not useful: continue
         if not big and not any(c['op'] == 'cont' for c in h) and k % 3: continue      # quick: thin out histories without a continuation
-        pick = names if (big and k % 3 == 0) else ([names[k % len(names)], names[(k * 5 + 3) % len(names)]] if big else [names[k % len(names)]])
+        pick = names if (big and k % 7 == 0) else ([names[k % len(names)], names[(k * 5 + 3) % len(names)]] if big else [names[k % len(names)]])
         for name in dict.fromkeys(pick):
             traces.append(instantiate(name, h, rnd, k)); ctx.mark((name, str(traces[-1]['scen']['calls'])))
     # longer messages with random aligned cuts
@@ -68,7 +72,7 @@ def run(ctx):
         for _ in range(rnd.randrange(1, 5)): r.update(H.content(rnd, rnd.randrange(0, 4) * Bb, 0), padding=False)
         r.update(H.content(rnd, rnd.randrange(0, 3 * Bb), 0), padding=True)
         traces.append(r.trace(dict(kind='random-cuts'))); ctx.mark((name, 'rnd', q))
-    ctx.exhaustive_subspaces.append('all %d call histories of depth <= %d (cont 0..2 blocks / bad continuation / final 0..1 blocks x 5 residue classes / over-long / re-init) over 14 hash objects (round-robin%s)' % (len(uniq), D, ', every third on all' if big else ''))
+    ctx.exhaustive_subspaces.append('%d of the %d call histories of depth <= %d (all of depth <= 3; cont 0..2 blocks / bad continuation / final 0..1 blocks x 5 residue classes / over-long / re-init) over 14 hash objects (round-robin%s)' % (len(uniq), nall, D, ', every seventh on all' if big else ''))
     # two objects of the same class fed alternately (per-object pad state and counters must not be shared)
     for name in (names if big else ['md5', 'md4', 'sha1', 'sha256', 'sha512', 'blake256']):
         Bb = H.blockbytes(name)
